@@ -428,7 +428,98 @@ def check_ultra(ctx, case):
     check_case(ctx, case)
 
 
-SUBCHECKS = {"random": check_case, "ultrametric": check_ultra}
+# ---------------------------------------------------------------------------------------------------------
+# threshold boundary: a split whose frequency EQUALS the threshold is in, one a hair below it is out
+# ---------------------------------------------------------------------------------------------------------
+def boundary_items(tier):
+    """(count, total) pairs with count/total > 1/2, taken where float arithmetic is treacherous: pairs for which
+    (c/T)*T, c/T*100/100 or T*(c/T) do not give back c, plus control pairs; unit weights (c of T trees) for integer
+    pairs up to T=39 and dyadic weights (two trees) for quarter-valued pairs."""
+    import math
+    pairs = []
+    for T4 in range(4, 80):
+        for c4 in range(T4 // 2 + 1, T4 + 1):
+            c, T = c4 / 4.0, T4 / 4.0
+            f = c / T
+            odd = (f * T != c) or (math.fsum([f] * 1) * T > c) or ((1.0 - f) + f != 1.0)
+            pairs.append((c, T, odd))
+    odd = [(c, T) for c, T, o in pairs if o]
+    even = [(c, T) for c, T, o in pairs if not o]
+    sel = odd + even[::(7 if tier == "quick" else 2)]
+    unit = [(c, n) for n in range(2, 40) for c in range(n // 2 + 1, n + 1) if (c / n) * n != c or n in (3, 7, 25)]
+    items = []
+    k = 0
+    for (c, T) in sel:
+        for above in (False, True):
+            items.append({"c": c, "T": T, "unit": False, "rooted": [True, False, None][k % 3], "route": ["treearray", "treelist", "splitdist"][(k // 3) % 3],
+                          "above": above})
+            k += 1
+    for (c, n) in unit:
+        for above in (False, True):
+            items.append({"c": c, "T": n, "unit": True, "rooted": [True, False][k % 2], "route": ["treearray", "treelist", "splitdist"][k % 3], "above": above})
+            k += 1
+    if tier == "quick":
+        items = items[::3]
+    return items
+
+
+def check_boundary(ctx, case):
+    import dendropy, math
+    rooted_flag = case["rooted"]
+    rooted = bool(rooted_flag)
+    c, T = case["c"], case["T"]
+    ns, taxa, bits = shapes.build_namespace(shapes.plain_history(5))
+    L = lambda t: {"t": t, "lab": None, "len": 1.0, "ch": []}
+    N = lambda ch: {"t": None, "lab": None, "len": 1.0, "ch": ch}
+    specA = {"t": None, "lab": None, "len": None, "ch": [N([L(0), L(1)]), L(2), N([L(3), L(4)])]}     # has {T0,T1}
+    specB = {"t": None, "lab": None, "len": None, "ch": [N([L(0), L(2)]), L(1), N([L(3), L(4)])]}     # has {T0,T2} instead
+    trees = []
+    if case["unit"]:
+        for i in range(int(T)):
+            trees.append(shapes.build_tree(specA if i < int(c) else specB, ns, taxa, is_rooted=rooted_flag))
+        use_w = False
+    else:
+        ta_ = shapes.build_tree(specA, ns, taxa, is_rooted=rooted_flag)
+        ta_.weight = c
+        trees.append(ta_)
+        if T - c > 0:
+            tb_ = shapes.build_tree(specB, ns, taxa, is_rooted=rooted_flag)
+            tb_.weight = T - c
+            trees.append(tb_)
+        use_w = True
+    route = case["route"]
+    coll, sd = make_collection({"use_w": use_w}, ns, trees, route)
+    rtA = RefTree.from_spec(specA)
+    keyA = [k for k in samples.tree_keys(rtA, rooted) if (frozenset(["T0", "T1"]) == k or (isinstance(next(iter(k)), frozenset) and frozenset(["T0", "T1"]) in k))]
+    if len(keyA) != 1:
+        raise runner.HarnessError("boundary: split {T0,T1} not found among %r" % (list(map(fmt, samples.tree_keys(rtA, rooted))),))
+    keyA = keyA[0]
+    reported = sd[samples.mask_of(frozenset(["T0", "T1"])) if rooted else samples.norm(samples.mask_of(frozenset(["T0", "T1"])), samples.mask_of(rtA.leafset()))]
+    ctx.check(abs(reported - c / T) <= 1e-12, "boundary_frequency", "C05.boundary_frequency", lambda: "reported %r want %r (c=%r T=%r)" % (reported, c / T, c, T))
+    thr = reported if not case["above"] else math.nextafter(reported, 2.0)
+    if thr > 1.0:
+        return
+    tag = "c=%r T=%r unit=%r rooted=%r route=%s threshold=%r (%s the reported frequency %r)" % (
+        c, T, case["unit"], rooted_flag, route, thr, "one ulp above" if case["above"] else "equal to", reported)
+    if route == "treearray":
+        con = ctx.call("C05.boundary_consensus", coll.consensus_tree, min_freq=thr)
+    elif route == "treelist":
+        con = ctx.call("C05.boundary_consensus", coll.consensus, min_freq=thr, use_tree_weights=use_w)
+    else:
+        con = ctx.call("C05.boundary_consensus", sd.consensus_tree, min_freq=thr)
+    crt = treechecks.wellformed(ctx, con, "consensus_well_formed", "C05.boundary_wellformed", tag)
+    got = samples.tree_keys(crt, rooted)
+    if case["above"] and reported < 1.0:
+        ctx.check(keyA not in got, "split_below_threshold_excluded", "C05.boundary_excluded", lambda: "%s consensus=%s" % (tag, crt.canon()))
+    else:
+        ctx.check(keyA in got, "split_reaching_threshold_included", "C05.boundary_included", lambda: "%s consensus=%s" % (tag, crt.canon()))
+    ctx.cls("boundary:%s:%s" % ("unit_weights" if case["unit"] else "two_weighted_trees", "above" if case["above"] else "equal"))
+    if (c / T) * T != c:
+        ctx.cls("boundary:product_does_not_give_back_count")
+    ctx.nontrivial(["boundary", c, T, case["unit"], rooted_flag, route, case["above"]])
+
+
+SUBCHECKS = {"random": check_case, "ultrametric": check_ultra, "boundary": check_boundary}
 
 
 def run(ctx):
@@ -437,3 +528,4 @@ def run(ctx):
     runner.run_given(ctx, "random", cases(8 if quick else 14, 8 if quick else 30), check_case, (4000 if quick else 24000) // n)
     runner.run_given(ctx, "ultrametric", cases(7 if quick else 10, 6 if quick else 16, ultrametric=True), check_ultra,
                      (800 if quick else 6000) // n)
+    runner.run_items(ctx, "boundary", boundary_items(ctx.tier), check_boundary)
